@@ -320,7 +320,7 @@ struct Minimiser {
 		if (!budget())
 			return false;
 		evals++;
-		IsoResult r = eval_isolated(P, cand, 10);
+		IsoResult r = eval_isolated(P, cand, 120);
 		return r.has(cls);
 	}
 	// ddmin-style removal on a json array reached by 'path' in best
@@ -631,7 +631,7 @@ static void worker_main(const Property &P, const CheckArgs &a, int lane, int nla
 		if (now_s() >= deadline)
 			break;
 		write_all(fd, "S " + std::to_string(idx) + "\n");
-		alarm(120);
+		alarm(900); // backstop for loops that touch no seam; generous, the machine may be heavily loaded
 		uint64_t seed = run_seed(a.seed, P.id, idx);
 		double tg0 = now_s();
 		json plan = P.generate(seed, idx, a.tier);
@@ -953,7 +953,7 @@ int run_check(const CheckArgs &a)
 	std::string tmpdir = outdir + "/tmp";
 	for (auto &c : cands) {
 		if (c.from_crash) {
-			IsoResult r = eval_isolated(P, c.plan, 60);
+			IsoResult r = eval_isolated(P, c.plan, 600);
 			if (r.viol.empty()) {
 				// the worker died but the plan does not reproduce in isolation: checker fault
 				fprintf(stderr, "GATE: worker death at idx %lu did not reproduce in isolation\n", (unsigned long)c.idx);
@@ -975,7 +975,7 @@ int run_check(const CheckArgs &a)
 			continue;
 		}
 		// gate (1): twice in-process-forked, same class
-		IsoResult g1 = eval_isolated(P, c.plan, 60), g2 = eval_isolated(P, c.plan, 60);
+		IsoResult g1 = eval_isolated(P, c.plan, 600), g2 = eval_isolated(P, c.plan, 600);
 		// gate (2): fresh process
 		IsoResult g3 = eval_fresh_process(c.plan, tmpdir);
 		if (!g1.has(c.cls) || !g2.has(c.cls) || !g3.has(c.cls) || g1.hash != g2.hash) {
